@@ -165,8 +165,39 @@ func (rn *runner) exec(ctx context.Context, tx *sql.SQLTx, q string, params map[
 	return ntx, ctxs, err, to
 }
 
+// bindRelative replaces the keys given as "<largest live key of the table> + k" by integers, reading the
+// largest key right before the transaction starts (what a client would do).
+func (rn *runner) bindRelative(p *TxPlan) {
+	bases := map[string]int64{}
+	for _, s := range p.Stmts {
+		for _, row := range s.Rows {
+			for j, v := range row {
+				if v.K != 'r' {
+					continue
+				}
+				base, ok := bases[s.Table]
+				if !ok {
+					ctx, cancel := context.WithTimeout(context.Background(), opTimeout)
+					if rd, err := rn.eng.Query(ctx, nil, "SELECT id FROM "+s.Table+" ORDER BY id DESC LIMIT 1", nil); err == nil {
+						if r, err := rd.Read(ctx); err == nil {
+							base = fromTyped(r.ValuesByPosition[0]).I
+						}
+						rd.Close()
+					}
+					cancel()
+					bases[s.Table] = base
+				}
+				row[j] = vInt(base + v.I)
+			}
+		}
+	}
+}
+
 func (rn *runner) runTx(p *TxPlan, phase int, conc bool) *txResult {
 	res := &txResult{plan: p, phase: phase, conc: conc, failedAt: -1}
+	if p.Mix {
+		rn.bindRelative(p)
+	}
 	params := map[string]any{}
 	var sqls []string
 	for i, s := range p.Stmts {
@@ -631,9 +662,70 @@ func (rn *runner) quiescent(phase int) {
 			rn.viol("commit/one-store-transaction-for-two-sql-transactions", fmt.Sprintf("store tx %d was reported as the commit of both %s and %s", res.hdr, other.Text(), res.plan.Text()))
 		}
 		rn.hdrSeen[res.hdr] = res.plan
-		ids := &idSeq{next: map[string]int64{}, have: map[string]bool{}}
-		for k, v := range res.first {
-			ids.next[k], ids.have[k] = v, true
+		// Generated keys: the rows inserted before the transaction's first explicit key on the table count up
+		// from the first reported key, those after its last explicit key count up to the last reported key
+		// (true whether or not an accepted explicit key moves the engine's counter); with no explicit key both
+		// rules coincide and must agree.
+		ids := &idSeq{queue: map[string][]int64{}}
+		type autoUse struct {
+			segs     []int64 // generated rows between explicit inserts: segs[0] before the first one
+			explicit int
+		}
+		uses := map[string]*autoUse{}
+		for _, s := range res.plan.Stmts {
+			t := rn.model.Tables[s.Table]
+			if t == nil || !t.Auto || len(s.Rows) == 0 {
+				continue
+			}
+			gen := s.Kind != "upsert"
+			for _, cn := range s.Cols {
+				if cn == t.PK[0] {
+					gen = false
+				}
+			}
+			u := uses[t.Name]
+			if u == nil {
+				u = &autoUse{segs: []int64{0}}
+				uses[t.Name] = u
+			}
+			if gen {
+				u.segs[len(u.segs)-1] += int64(len(s.Rows))
+			} else {
+				u.explicit++
+				u.segs = append(u.segs, 0)
+			}
+		}
+		for name, u := range uses {
+			first, ok := res.first[name]
+			if !ok {
+				continue
+			}
+			var q []int64
+			known := true
+			for i, n := range u.segs {
+				switch {
+				case n == 0:
+				case i == 0:
+					for k := int64(0); k < n; k++ {
+						q = append(q, first+k)
+					}
+				case i == len(u.segs)-1:
+					for k := n - 1; k >= 0; k-- {
+						q = append(q, res.last[name]-k)
+					}
+				default:
+					known = false // between two explicit keys: not derivable from what the engine reports
+				}
+			}
+			if known {
+				ids.queue[name] = q
+			}
+			if u.explicit == 0 && len(q) > 0 {
+				rn.c.Eval(1)
+				if res.last[name] != first+int64(len(q))-1 && modelOK {
+					rn.viol("auto-increment/reported-keys-inconsistent", fmt.Sprintf("store tx %d (%s) inserted %d rows with generated keys into %s but reported first=%d last=%d", res.hdr, res.plan.Text(), len(q), name, first, res.last[name]))
+				}
+			}
 		}
 		for i, s := range res.plan.Stmts {
 			v, err := rn.model.Apply(s, ids)
@@ -657,14 +749,6 @@ func (rn *runner) quiescent(phase int) {
 			if modelOK {
 				for _, kind := range v.Must {
 					rn.viol(kind+"/accepted-from/"+s.Kind, fmt.Sprintf("store tx %d committed %q (transaction %s) although, in the state left by the transactions committed before it, the statement violates the %s constraint", res.hdr, s.Text(), res.plan.Text(), kind))
-				}
-			}
-		}
-		for tname, next := range ids.next {
-			if t := rn.model.Tables[tname]; t != nil && t.Auto && next != res.first[tname] {
-				rn.c.Eval(1)
-				if res.last[tname] != next-1 && modelOK {
-					rn.viol("auto-increment/reported-keys-inconsistent", fmt.Sprintf("store tx %d (%s) inserted %d rows with generated keys into %s but reported first=%d last=%d", res.hdr, res.plan.Text(), next-res.first[tname], tname, res.first[tname], res.last[tname]))
 				}
 			}
 		}
